@@ -3,8 +3,10 @@
 spec -> code (model-based testing with TLC as the oracle):
 
  * mon/Monitor.tla: monitors as objects on a heap (x, stored k*y, id, k), one action per public call
-   (Call, Slice, Add, Extend, Prepend, SetItem).  TLC checks the design (len = calls, k transparent,
-   every reported record is a recorded call, argument objects unchanged, concatenation order) and
+   (Call, Slice, Add, Extend, Prepend, SetItem, and for the other forms of __getitem__: Index -- list of
+   ints, numpy int array, bool mask as array or list, the same inside a 1-tuple --, TSlice -- a slice inside
+   a 1-tuple --, GetItem -- python / numpy integer).  TLC checks the design (len = calls, k transparent,
+   every reported record is a recorded call, argument objects unchanged, concatenation / selection order) and
    emits EVERY operation script of the configured length together with what the object written by
    each operation reports afterwards.  The harness replays each script on real mystic monitors
    (Monitor, VerboseMonitor, LoggingMonitor, VerboseLoggingMonitor) and after every operation
@@ -29,7 +31,10 @@ NONE = 1000
 class Machinery(Exception):
     """harness-side inconsistency: exit 2, never a VIOLATION"""
 inf, nan = float("inf"), float("nan")
-TMP = os.path.join(ROOT, "out", "C20", "tmp")
+from harness.core import OUT_DIR
+# scratch files of THIS run only (pid of the parent process; forked workers inherit it): concurrent runs of the
+# check -- e.g. bin/seeded against a scratch worktree -- must not remove each other's directory
+TMP = os.path.join(OUT_DIR, "C20", "tmp_%d" % os.getpid())
 
 # ----------------------------------------------------------------------------------------------
 # catalogues of concrete values (LogFile.tla: NCat = 16).  YCAT differs from XCAT only where k*y
@@ -173,6 +178,15 @@ def replay_script(M, np, sc, cls, prof, report, corrupt=False):
                     elif name == "slice":
                         new = heap[slots[a - 1]][slice(none(sl[0]), none(sl[1]), none(sl[2]))]
                         heap.append(new); slots[t - 1] = len(heap) - 1; tgt = len(heap) - 1
+                    elif name == "tslice":
+                        new = heap[slots[a - 1]][(slice(none(sl[0]), none(sl[1]), none(sl[2])),)]
+                        heap.append(new); slots[t - 1] = len(heap) - 1; tgt = len(heap) - 1
+                    elif name in INDEX_FORMS:
+                        new = heap[slots[a - 1]][concrete_index(np, name, sl, prof.n + step)]
+                        heap.append(new); slots[t - 1] = len(heap) - 1; tgt = len(heap) - 1
+                    elif name in ITEM_FORMS:
+                        tgt = slots[a - 1]
+                        item = heap[tgt][concrete_item(np, name, i, prof.n + step)]
                     elif name == "add":
                         new = heap[slots[a - 1]] + heap[slots[b - 1]]
                         heap.append(new); slots[t - 1] = len(heap) - 1; tgt = len(heap) - 1
@@ -193,6 +207,22 @@ def replay_script(M, np, sc, cls, prof, report, corrupt=False):
                 return False
             if tgt != obj - 1:
                 raise Machinery("harness/spec object numbering differs: %s vs %s in %s" % (tgt, obj - 1, op))
+            if name in ITEM_FORMS:
+                # m[i]: the pair (x, y) of the record the specification names (c = <<x, y, id>>)
+                e = (prof.cx(c[0]), prof.cy(c[1]))
+                if corrupt and step == len(sc["s"]) - 1:
+                    e = (e[0], canon(12345.5))
+                try:
+                    g = (len(item), canon(item[0]), canon(item[1])) if isinstance(item, tuple) else ("not a pair", repr(item))
+                except Exception as ex:
+                    g = ("raised %r" % ex,)
+                if g != (2,) + e:
+                    what = "shape" if len(g) != 3 or g[0] != 2 else "+".join(f for f, gg, ee in zip(("x", "y"), g[1:], e) if gg != ee)
+                    report("mon:%s:%s:%s" % (cls, name, what),
+                           {"kind": "script", "cls": cls, "profile": prof.n, "concretisation": prof.describe(),
+                            "script": sc, "step": step, "index": i, "expected": e, "got": g},
+                           "%s k=%s step %d: m[%s] (%s) spec says (x,y)=%s, mystic gives %s" % (cls, ks, step, i, name, e, g[1:] if g[0] == 2 else g))
+                    return False
             exp = (len(recs), tuple(prof.cx(r[0]) for r in recs), tuple(prof.cy(r[1]) for r in recs),
                    canon_ids([prof.id(r[2]) for r in recs]))
             if corrupt and step == len(sc["s"]) - 1 and recs:
@@ -282,7 +312,40 @@ class _Guard(object):
         return False
 
 
-COMBINE = ("add", "extend", "prepend", "setitem", "slice")
+INDEX_FORMS = ("ilist", "iarray", "imask", "lmask", "tlist", "tarray", "tmask")     # Monitor.tla: IndexForms
+ITEM_FORMS = ("item", "npitem")                                                      # Monitor.tla: ItemForms
+COMBINE = ("add", "extend", "prepend", "setitem", "slice", "tslice") + INDEX_FORMS
+
+
+def concrete_index(np, form, sel, rot):
+    """the python object of an Index(t, s, form, sel) of Monitor.tla (sel: ints, for masks 0/1);
+    the integer dtype of an array is a renaming (rotation)"""
+    if form in ("imask", "lmask", "tmask"):
+        if any(v not in (0, 1) for v in sel):
+            raise Machinery("mask with entries other than 0/1: %r" % (sel,))
+        b = [bool(v) for v in sel]
+        if form == "lmask":
+            return b                 # (the empty mask of an empty monitor is [], the same object as an empty 'ilist')
+        a = np.array(b, dtype=bool)
+        return (a,) if form == "tmask" else a
+    idx = [int(v) for v in sel]
+    if form == "ilist": return idx
+    if form == "tlist": return (idx,)
+    a = np.array(idx, dtype=(np.int64, np.int32, np.intp, np.int16)[rot % 4])
+    return (a,) if form == "tarray" else a
+
+
+def concrete_item(np, form, i, rot):
+    if form == "item": return int(i)
+    return (np.int64, np.int32, np.intp, np.int8)[rot % 4](i)
+
+
+def profile_for(n, np, cls, sc):
+    """concretisation of one (script, class) replay.  Tuple-valued ids are not used with the verbose classes
+    (they print ids) nor in scripts that index with a list/array/tuple: that branch of __getitem__ builds
+    numpy.array(self._id), which cannot hold a ragged mix of None and tuples (documented ids are int or None)"""
+    fancy = any(op[0] in INDEX_FORMS or op[0] == "tslice" for op in sc["s"])
+    return Profile(n, np, tuple_ids_ok=not cls.startswith("Verbose") and not fancy)
 
 
 def script_nontrivial(sc):
@@ -450,6 +513,8 @@ def tasks_for(tier):
     if tier == "quick":
         T.append(dict(part="slice", module="mon/MC_Monitor", cfg="MC_MonSlice_quick.cfg", env={}, classes=1))
         T.append(dict(part="script", module="mon/MC_Monitor", cfg="MC_MonScript_w3f2.cfg", env={"C20_KLO": 1, "C20_KHI": 16}, classes=2))
+        for i in (1, 3):
+            T.append(dict(part="index", module="mon/MC_Monitor", cfg="MC_MonIndex_quick.cfg", env={"C20_KLO": i, "C20_KHI": i + 1}, classes=2))
         for i in (3, 12):
             T.append(dict(part="script", module="mon/MC_Monitor", cfg="MC_MonScript_w0f3.cfg", env={"C20_KLO": i, "C20_KHI": i}, classes=1))
         T.append(dict(part="file", module="mon/MC_LogFile", cfg="MC_LogFile_quick.cfg", env={"C20_OSTEP": 3}))
@@ -462,6 +527,8 @@ def tasks_for(tier):
             T.append(dict(part="script", module="mon/MC_Monitor", cfg="MC_MonScript_w5f2.cfg", env={"C20_KLO": i, "C20_KHI": i + 3}, classes=4))
         T.append(dict(part="script", module="mon/MC_Monitor", cfg="MC_MonScript_w3f2.cfg", env={"C20_KLO": 1, "C20_KHI": 16}, classes=4))
         T.append(dict(part="slice", module="mon/MC_Monitor", cfg="MC_MonSlice_thorough.cfg", env={}, classes=2))
+        for i in range(1, 5):
+            T.append(dict(part="index", module="mon/MC_Monitor", cfg="MC_MonIndex_thorough.cfg", env={"C20_KLO": i, "C20_KHI": i}, classes=4))
         for o in range(0, 16, 2):
             for fk in (NONE, 1, 2, -1):
                 T.append(dict(part="file", module="mon/MC_LogFile", cfg="MC_LogFile_thorough.cfg",
@@ -480,13 +547,14 @@ def gen(task):
             "wall_s": r.wall_s, "tail": r.out[-3000:] if r.violated else "", "printed": r.printed}
 
 
-def replay(task, res, M, G, np, seed=0, corrupt=False, max_viol=200):
-    """replay everything one TLC run emitted; returns a picklable summary"""
+def replay(task, res, M, G, np, seed=0, corrupt=False, max_viol=200, stop_after=None):
+    """replay everything one TLC run emitted; returns a picklable summary.
+    stop_after (self-test only): give up on this run's output after that many disagreements"""
     with _Guard() as guard:
-        return _replay(task, res, M, G, np, seed, corrupt, max_viol, guard)
+        return _replay(task, res, M, G, np, seed, corrupt, max_viol, guard, stop_after)
 
 
-def _replay(task, res, M, G, np, seed, corrupt, max_viol, guard):
+def _replay(task, res, M, G, np, seed, corrupt, max_viol, guard, stop_after=None):
     os.makedirs(TMP, exist_ok=True)
     out = dict(n=task["n"], evaluations=0, nontrivial=0, traces=0, viols=[], more={}, samples=[], ops={}, kinds={})
 
@@ -499,18 +567,20 @@ def _replay(task, res, M, G, np, seed, corrupt, max_viol, guard):
         else:
             out["more"][key] = out["more"].get(key, 0) + 1
     printed = res["printed"]
-    if task["part"] in ("script", "slice"):
+    if task["part"] in ("script", "slice", "index"):
         ncls = task["classes"]
         for j, sc in enumerate(printed):
             g = j + 1000 * task["n"] + seed
             guard.tick()
+            if stop_after is not None and sum(seen.values()) >= stop_after:
+                break
             for c in range(ncls):
                 # plain Monitor always; the other classes by rotation (all of them when ncls = 4)
                 if c == 0: cls = "Monitor"
                 elif ncls == 4: cls = CLASSES[c]
                 elif ncls == 2: cls = CLASSES[1 + g % 3]
                 else: cls = CLASSES[1 + (g + c) % 3]
-                prof = Profile(g + 17 * c, np, tuple_ids_ok=not cls.startswith("Verbose"))
+                prof = profile_for(g + 17 * c, np, cls, sc)
                 replay_script(M, np, sc, cls, prof, report, corrupt=corrupt and j == len(printed) // 2 and c == 0)
                 out["evaluations"] += 1
                 out["kinds"][cls] = out["kinds"].get(cls, 0) + 1
@@ -527,6 +597,8 @@ def _replay(task, res, M, G, np, seed, corrupt, max_viol, guard):
         for j, st in enumerate(printed):
             g = j + seed
             guard.tick()
+            if stop_after is not None and sum(seen.values()) >= stop_after:
+                break
             replay_file(M, G, np, st, g, report, corrupt=corrupt and j == len(printed) - 1)
             out["evaluations"] += 1
             out["traces"] += 1
@@ -572,13 +644,16 @@ def check_assumptions(np):
         raise RuntimeError("catalogue values must be distinct")
 
 
-RULE = ("Monitor.tla: every operation script (Call/Slice/+/extend/prepend/__setitem__ on two monitors with k in "
-        "{None,1,2,-1}; warm-up calls + 2..3 free operations; plus every [start:stop:step] on lengths 0..3/4) emitted by "
+RULE = ("Monitor.tla: every operation script (Call/Slice/Index/+/extend/prepend/__setitem__ on two monitors with k in "
+        "{None,1,2,-1}; warm-up calls + 2..3 free operations; Index inside scripts = m[[0,-1,0]] and m[(mask,)], in the thorough "
+        "5+2 scripts also m[(array([-1,1]),)], m[array([1,1,0])], m[~mask], m[[True,False,True]]; plus every [start:stop:step] on lengths 0..3/4; plus, on lengths 0..3/4 and every k, every "
+        "list of <= 3/4 indices as list / int array / 1-tuple of either, every bool mask as array / list / 1-tuple, every "
+        "integer index as python / numpy integer, 5 slices inside a 1-tuple) emitted by "
         "TLC is replayed on real Monitor/VerboseMonitor/LoggingMonitor/VerboseLoggingMonitor objects and every object "
-        "ever created is compared (len,x,y,id) after every operation; LogFile.tla: every trajectory (<=3/4 records, "
+        "ever created is compared (len,x,y,id) after every operation, m[i] against the record TLC names; LogFile.tla: every trajectory (<=3/4 records, "
         "dim 1..3, scalar/vector cost, ids None/7/8, interval 1..3, k, 16 catalogue offsets) is written by the real "
         "LoggingMonitor / munge.write_*_file and read back. evaluations = (script, class) and trajectory replays; "
-        "a script is non-trivial if some +/extend/prepend/slice/__setitem__ yields a non-empty monitor, a trajectory "
+        "a script is non-trivial if some +/extend/prepend/slice/index/__setitem__ yields a non-empty monitor, a trajectory "
         "if it has >= 1 record; each emitted script/trajectory is a distinct TLC state and counted once")
 
 
@@ -622,13 +697,13 @@ def explore(ck, a):
         shutil.rmtree(TMP, ignore_errors=True)
     os.makedirs(TMP, exist_ok=True)
     try:
-        jobs = max(1, min(a.jobs, len(tasks), 4 if a.tier == "quick" else 16))
+        jobs = max(1, min(a.jobs, len(tasks), 6 if a.tier == "quick" else 16))
         if jobs > 1:
             import multiprocessing as mp
             ctx = mp.get_context("fork")
             with ctx.Pool(jobs, maxtasksperchild=1) as pool:
                 # big tasks first
-                order = sorted(tasks, key=lambda t: (t["part"] != "script", t["n"]))
+                order = sorted(tasks, key=lambda t: (t["part"] not in ("script", "index"), t["n"]))
                 for task, res, out in pool.imap_unordered(_work, [(t, a.seed) for t in order]):
                     absorb(ck, task, res, out)
         else:
@@ -637,7 +712,7 @@ def explore(ck, a):
                 absorb(ck, task, res, out)
     finally:
         shutil.rmtree(TMP, ignore_errors=True)
-    missing = [o for o in ("call", "slice", "add", "extend", "prepend", "setitem")
+    missing = [o for o in ("call", "slice", "tslice", "add", "extend", "prepend", "setitem") + INDEX_FORMS + ITEM_FORMS
                if not ck.extra.get("operations_replayed", {}).get(o)]
     if missing:
         raise RuntimeError("vacuous run: operations never emitted by TLC: %s" % missing)
@@ -650,6 +725,14 @@ def explore(ck, a):
         "and -1 is exact in IEEE arithmetic, as it is on the specification's integers)",
         "m.extend(m)/m.prepend(m) (monitor passed to itself) are outside the statement; __setitem__ is modelled as the code "
         "behaves and only between monitors of equal effective k; ids in files are int or None as documented",
+        "__getitem__ forms: integer (python/numpy), slice, list of ints, numpy int array (int8..int64 by rotation), bool "
+        "mask (array or list) of the monitor's length, and the 1-tuples holding a list / int array / mask / slice (a record "
+        "selector whatever the rank of x and y) are modelled; only selections numpy accepts (indices in -len..len-1, mask "
+        "of length len). Left out: tuples of length >= 2 (m[rows, cols] indexes INTO the parameter vectors -- the statement "
+        "says nothing about projections -- and when the tuple's length is not the rank of the stored array the code uses "
+        "its first element only), the 1-tuple holding an integer (AttributeError in the code), out-of-range selections "
+        "(IndexError). Scripts that index with a list/array/tuple use int/None ids only: that branch goes through "
+        "numpy.array(self._id), which raises on a mix of None and tuple-valued ids and returns tuple ids as lists",
         "equality is exact on the double (nan == nan, -0.0 != 0.0, int 7 == 7.0); containers compared by structure "
         "(list/tuple/ndarray interchangeable); a scalar parameter x is read back from a log as [x]",
         "read_support_file/read_converge_file (which re-apply the layout conversion), CustomMonitor, Null, _info, "
@@ -676,10 +759,10 @@ def selftest(a):
     os.makedirs(TMP, exist_ok=True)
     results = [(t, gen(t)) for t in tasks]
 
-    def run(corrupt=False):
+    def run(corrupt=False, stop_after=None):
         keys = {}
         for t, res in results:
-            out = replay(t, res, M, G, np, seed=a.seed, corrupt=corrupt)
+            out = replay(t, res, M, G, np, seed=a.seed, corrupt=corrupt, stop_after=stop_after)
             for key, _, _ in out["viols"]:
                 keys[key] = keys.get(key, 0) + 1
             for key, n in out["more"].items():
@@ -736,10 +819,102 @@ def selftest(a):
         G.converge_to_support = lambda steps, energy: (steps, energy)
 
     def m_rawfile_cost_repr():
-        _patch_source(G, "write_raw_file", "f.write('cost = %s\\n' % energy)",
-                      "f.write('cost = %s\\n' % [float('%.12g' % e) if isinstance(e, float) and e == e and abs(e) != float('inf') else e for e in energy])", G.__dict__)
+        rnd = "[float('%%.12g' %% e) if isinstance(e, float) and e == e and abs(e) != float('inf') else e for e in %s]"
+        src = inspect.getsource(G.write_raw_file)
+        for expr in ("_plain(energy)", "energy"):         # (with / without the repo's numpy-values fix)
+            old = "f.write('cost = %s\\n' % " + expr + ")"
+            if old in src:
+                return _patch_source(G, "write_raw_file", old, "f.write('cost = %s\\n' % " + rnd % expr + ")", G.__dict__)
+        raise RuntimeError("selftest: the line writing 'cost = ...' not found in munge.write_raw_file")
 
-    mutants = [("prepend reverses the record order", m_prepend_reversed),
+    # ---- the indexing forms of __getitem__ other than the slice
+    def m_list_index_unscaled():
+        # the list/array branch builds the new stored costs from the PUBLIC cost array (k divided out)
+        _patch_source(M.Monitor, "__getitem__", "m._y = numpy.array(self._y)[y].tolist()", "m._y = self.ay[y].tolist()", M.__dict__)
+
+    def m_tuple_index_unscaled():
+        _patch_source(M.Monitor, "__getitem__", "m._y = numpy.array(self._y)[y if nn == ny else y[0]].tolist()",
+                      "m._y = self.ay[y if nn == ny else y[0]].tolist()", M.__dict__)
+
+    def m_list_index_sorted():
+        orig = M.Monitor.__getitem__
+        def __getitem__(self, y):
+            if type(y) is list and not any(isinstance(v, bool) for v in y):
+                y = sorted(v % len(self) for v in y)
+            elif type(y) is np.ndarray and y.dtype != bool:
+                y = np.sort(y % len(self)) if len(y) else y
+            return orig(self, y)
+        M.Monitor.__getitem__ = __getitem__
+
+    def m_list_index_dedup():
+        orig = M.Monitor.__getitem__
+        def __getitem__(self, y):
+            if type(y) is list and not any(isinstance(v, bool) for v in y):
+                y = [v for j, v in enumerate(y) if v not in y[:j]]
+            return orig(self, y)
+        M.Monitor.__getitem__ = __getitem__
+
+    def m_mask_inverted():
+        orig = M.Monitor.__getitem__
+        def __getitem__(self, y):
+            if type(y) is np.ndarray and y.dtype == bool:
+                y = ~y
+            return orig(self, y)
+        M.Monitor.__getitem__ = __getitem__
+
+    def m_index_ids_not_selected():
+        _patch_source(M.Monitor, "__getitem__", "m._id = numpy.array(self._id)[y].tolist()", "m._id = self._id[:len(m._x)]", M.__dict__)
+
+    def m_tuple_index_ids_not_selected():
+        _patch_source(M.Monitor, "__getitem__", "m._id = numpy.array(self._id)[y if nn == ni else y[0]].tolist()",
+                      "m._id = self._id[:len(m._x)]", M.__dict__)
+
+    def m_index_alters_source():
+        # the selection is taken out of the indexed monitor (it keeps only what was not selected)
+        orig = M.Monitor.__getitem__
+        def __getitem__(self, y):
+            m = orig(self, y)
+            if type(y) in (list, np.ndarray, tuple) and len(self):
+                gone = set(np.arange(len(self._x))[y[0] if type(y) is tuple else y].tolist())
+                keep = [j for j in range(len(self._x)) if j not in gone]
+                self._x[:] = [self._x[j] for j in keep]; self._y[:] = [self._y[j] for j in keep]
+                self._id[:] = [self._id[j] for j in keep]
+            return m
+        M.Monitor.__getitem__ = __getitem__
+
+    def m_index_drops_k():
+        orig = M.Monitor.__getitem__
+        def __getitem__(self, y):
+            m = orig(self, y)
+            if type(y) in (list, np.ndarray, tuple):
+                m.k = None
+            return m
+        M.Monitor.__getitem__ = __getitem__
+
+    def m_npint_item_positive_only():
+        # numpy integers are not recognised as integers when negative: m[np.int64(-1)] -> first record
+        orig = M.Monitor.__getitem__
+        def __getitem__(self, y):
+            if isinstance(y, np.integer) and y < 0:
+                y = 0
+            return orig(self, y)
+        M.Monitor.__getitem__ = __getitem__
+
+    def m_int_item_cost_scaled():
+        _patch_source(M.Monitor, "__getitem__", "return self.x[y],self.y[y]", "return self.x[y],self._y[y]", M.__dict__)
+
+    mutants = [("list/array index: new monitor built from the public cost array self.ay (k divided out)", m_list_index_unscaled),
+               ("1-tuple index: new monitor built from self.ay", m_tuple_index_unscaled),
+               ("list/array index sorts the selection", m_list_index_sorted),
+               ("list index drops repeated entries", m_list_index_dedup),
+               ("bool mask inverted", m_mask_inverted),
+               ("list/array index: ids not selected (first len ids kept)", m_index_ids_not_selected),
+               ("1-tuple index: ids not selected", m_tuple_index_ids_not_selected),
+               ("list/array/tuple index removes the selected records from the indexed monitor", m_index_alters_source),
+               ("list/array/tuple index loses k", m_index_drops_k),
+               ("negative numpy-integer index returns the first record", m_npint_item_positive_only),
+               ("integer index returns the stored (k-scaled) cost", m_int_item_cost_scaled),
+               ("prepend reverses the record order", m_prepend_reversed),
                ("k applied twice on extend/prepend/+", m_k_twice_on_extend),
                ("+ mutates its left argument", m_add_mutates_left),
                ("slice drops the last selected record", m_slice_drops_last),
@@ -761,7 +936,9 @@ def selftest(a):
             if kind == "mutant":
                 mutants[i][1]()
                 try:
-                    keys = run()
+                    # (a mutant that is noticed is noticed often: each TLC run's output is left after 300
+                    # disagreements; a mutant that is MISSED has been replayed on everything)
+                    keys = run(stop_after=300)
                 except Machinery:
                     raise
                 except Exception as ex:
@@ -820,7 +997,7 @@ def replay_artifact(a):
     try:
         if d.get("kind") == "script":
             cls = d["cls"]
-            prof = Profile(d["profile"], np, tuple_ids_ok=not cls.startswith("Verbose"))
+            prof = profile_for(d["profile"], np, cls, d["script"])
             replay_script(M, np, d["script"], cls, prof, rep)
         elif d.get("kind") == "file":
             replay_file(M, G, np, d["state"], d["j"], rep)
